@@ -66,7 +66,7 @@ def lenDefault (S : Schema) (f : FieldD) (sel : Bool) : R Nat :=
       | .list => if isPacked f.ty then lenFrame f.num .bytes 0 false false else .ok 0
       | .dict => .ok 0
       | .msg _ => if f.ty == .message then lenFrame f.num f.ty 0 selG f.wraps.isSome else .error .type
-      | k => lenScalar S f.num f.ty (defaultOfKind S k) ((k == .str && sel) || selG) f.wraps
+      | k => lenScalar S f.num f.ty (defaultOfKind S k) ((match k with | .str => sel | _ => false) || selG) f.wraps
 
 /-- non-packed repeated field: `_len_single(..., serialize_empty=True) or 2` per item -/
 def lenItems (S : Schema) (f : FieldD) : List Val → R Nat
